@@ -12,18 +12,26 @@ def main():
 
     from vf.ser import ser
 
+    reverse = tokenizer_name.endswith("-rev")
+    tokenizer_name = tokenizer_name.replace("-rev", "")
     tok = {"ac": lambda: default_tokenizer, "hs": HyperscanTokenizer, "ref": Tokenizer}[tokenizer_name]()
     corpus = json.load(open(corpus_path, encoding="utf8"))
     out = []
-    for item in corpus:
+    order = list(range(len(corpus)))
+    if reverse:
+        order.reverse()
+    results = {}
+    for idx in order:
+        item = corpus[idx]
         try:
             if "markup" in item:
                 cs = get_citations(markup_text=item["markup"], clean_steps=item["steps"], tokenizer=tok, remove_ambiguous=item.get("ra", False))
             else:
                 cs = get_citations(item["text"], tokenizer=tok, remove_ambiguous=item.get("ra", False))
-            out.append(ser(cs))
+            results[idx] = ser(cs)
         except Exception as e:  # noqa: BLE001
-            out.append(f"RAISED {type(e).__name__}")
+            results[idx] = f"RAISED {type(e).__name__}"
+    out = [results[i] for i in range(len(corpus))]
     json.dump(out, open(out_path, "w", encoding="utf8"), ensure_ascii=False)
 
 
